@@ -1,5 +1,6 @@
 import FsnVerif.Proofs.ProtoLemmas
 import FsnVerif.Proofs.SkeletonTie
+import FsnVerif.Proofs.SkeletonTieLocks
 import FsnVerif.Proofs.ALLemmas
 /-!
 # C07 — Thread safety (protocol model + lock facts)
